@@ -2,3 +2,20 @@
 pub use crate::cmsg::verif as cmsg;
 #[cfg(unix)]
 pub use crate::imp::verif as unix;
+
+/// C19: `Transmit::effective_segment_size`: segmentation offload is requested only when the
+/// contents really span more than one segment (a segment size >= the payload means a plain send).
+pub fn effective_segment_size(len: u16, has_seg: bool, seg: usize) -> u32 {
+    static ZEROS: [u8; 65536] = [0; 65536];
+    let t = Transmit {
+        destination: SocketAddr::new(IpAddr::V6(Ipv6Addr::LOCALHOST), 1),
+        ecn: None,
+        contents: &ZEROS[..len as usize],
+        segment_size: if has_seg { Some(seg) } else { None },
+        src_ip: None,
+    };
+    let r = t.effective_segment_size();
+    let want = if has_seg && seg < len as usize { Some(seg) } else { None };
+    assert!(r == want);
+    if r.is_some() { 2 } else { 1 }
+}
